@@ -303,8 +303,9 @@ class Builder:
             enc = bool(n_sessions) and can_enc and (ch.bool() if want_encrypt is None else want_encrypt)
             area = [[f"{path}.authorizationArea", fr["authorizationArea"], ELLIPSIS]]
             elem = list_elem(fr["authorizationArea"])
-            dec_at = ch.int(0, n_sessions - 1) if dec else -1
-            enc_at = ch.int(0, n_sessions - 1) if enc else -1
+            # which session carries the flag: the last one in half of the cases (a scan that stops early misses it)
+            dec_at = (n_sessions - 1 if ch.bool() else ch.int(0, n_sessions - 1)) if dec else -1
+            enc_at = (n_sessions - 1 if ch.bool() else ch.int(0, n_sessions - 1)) if enc else -1
             for i in range(n_sessions):
                 area += self._session(
                     elem,
@@ -346,7 +347,7 @@ class Builder:
         if n_sessions is not None:
             elem = list_elem(fr["authorizationArea"])
             body += [[f"{path}.authorizationArea", fr["authorizationArea"], ELLIPSIS]]
-            enc_at = ch.int(0, n_sessions - 1) if enc else -1
+            enc_at = (n_sessions - 1 if ch.bool() else ch.int(0, n_sessions - 1)) if enc else -1
             for i in range(n_sessions):
                 body += self._session(elem, f"{path}.authorizationArea[{i}]", attr_set=0x40 if i == enc_at else 0, attr_clear=0 if enc else 0x40)
         toks = head + body
@@ -408,7 +409,8 @@ def responses(draw, layout, cc_name=None, sessions="any", enc=None, failed=None,
     cc = layout.commands[cc_name]["code"]
     if failed and unknown_cc and ch.chance(1, 4):
         # the (header-only) answer to a command the decoder has no layout for, e.g. TPM_RC_COMMAND_CODE to a vendor command
-        cc = ch.choice([c for c in (0x15A, 0x199, 0x11E, 0x20000001, 0x7FFFFFFF, None) if c not in layout.cc_by_code])
+        # (also codes whose low half is a known command: vendor bit / reserved bits on top of it)
+        cc = ch.choice([c for c in (0x15A, 0x199, 0x11E, 0x20000001, 0x7FFFFFFF, None, 0x20000000 | cc, 0x00010000 | cc, 0xFFFF0000 | cc) if c not in layout.cc_by_code])
         meta["unknown_cc"] = True
     return Case("Response", toks, layout, cc=cc, enc=meta["encrypt"], meta=meta)
 
